@@ -414,6 +414,29 @@ func limitSleepShape(c *Ctx, lr *limitRoles, rule string, strict bool) {
 								var idx int
 								fmt.Sscanf(a.Name, "%d", &idx)
 								out = append(out, p.resultSyms(cal, idx)...)
+								// a duration of 0 is reported only together with "stop" (that batch is
+								// never slept on): `return 0, dsc.pass()` hands an unmeasured batch to
+								// the pause, which then lasts a whole Interval on top of the batch
+								for _, rb := range cal.Blocks {
+									ret, isRet := rb.Instrs[len(rb.Instrs)-1].(*ssa.Return)
+									if !isRet || rb == cal.Recover {
+										continue
+									}
+									vals := returnedValues(ret)
+									if len(vals) != 2 || idx >= len(vals) {
+										continue
+									}
+									if k, isK := constDuration(vals[idx]); !isK || k != 0 {
+										continue
+									}
+									other := vals[1-idx]
+									if bt, isB := other.Type().Underlying().(*types.Basic); !isB || bt.Kind() != types.Bool {
+										continue
+									}
+									if cv, isC := other.(*ssa.Const); !isC || constString(cv) != "true" {
+										problems = append(problems, "a batch duration of 0 is returned at "+p.InstrPos(ret)+" without the stop flag being true: an unmeasured batch is followed by a full Interval of pause (the limiter runs slower than configured, elements wait although the quota is unused)")
+									}
+								}
 								continue
 							}
 						}
@@ -579,6 +602,22 @@ func runC04(c *Ctx) {
 	}
 	p := lr.p
 	limitBatchLoop(c, lr, "L1")
+	// L7 (= Q7 #go): one transfer loop per discipline: a goroutine started from an API method
+	// (lazily, per call of Output()) runs N loops over the same channels: N * Quantity per Interval
+	r.Doc("L7", "(= C12 Q7) the discipline's goroutine is started once, by the constructor", 1)
+	for _, e := range lr.d.Gos {
+		inCtor := false
+		for _, ct := range lr.d.Ctors {
+			if e.Stmt != nil && e.Stmt.Parent() == ct {
+				inCtor = true
+			}
+		}
+		where := "-"
+		if e.Stmt != nil {
+			where = p.InstrPos(e.Stmt)
+		}
+		r.Check(inCtor && !e.Multi, "L7", p.FnKey(e.Entry)+"#go", where, "started once, by the constructor", "the discipline's goroutine is not started (once) by the constructor: every further start runs another transfer loop over the same input and output, each passing Quantity elements per Interval")
+	}
 	// L6: the limit the discipline is given is often the output of Optimize(); a conversion that
 	// rounds up hands the discipline a faster rate than the one the user specified
 	{
